@@ -20,6 +20,7 @@ def generate(seed, tier="quick"):
     if d.get("orbit_from"):
         d["orbit_from"] = [0, d["orbit_from"][1] % lib["n"]]
     nan_lib = sampling.add_nan_library(rnd, cfg, 0, p=0.2)
+    sampling.add_neg_inf_profile(rnd, cfg, 0, p=0.15)
     N = lib["n"]
     ops = []
     for oid in range(rnd.randint(2, 4)):
@@ -182,4 +183,6 @@ def evaluate(dep, program):
         vv, info = judge_iterative(dep, rec, L, PROPERTY, probes)
         v += vv
     probes["lstar_evals"] = L.evals
+    if program["config"].get("ll_override"):
+        probes["runs_with_neg_inf_profile_stub(kernel output overridden)"] = 1
     return v, probes
